@@ -356,8 +356,15 @@ class SOCKSProxy:
             exceptions.append(sock)
 
         strings = set(f'{exc!r}' for exc in exceptions)
-        raise (exceptions[0] if len(strings) == 1 else
-               OSError(f'multiple exceptions: {", ".join(strings)}'))
+        if len(strings) == 1:
+            raise exceptions[0]
+        message = f'multiple exceptions: {", ".join(strings)}'
+        if all(isinstance(exc, SOCKSError) for exc in exceptions):
+            # Every attempt got as far as the proxy handshake: keep it a SOCKS error
+            if all(isinstance(exc, SOCKSFailure) for exc in exceptions):
+                raise SOCKSFailure(message)
+            raise SOCKSProtocolError(message)
+        raise OSError(message)
 
     async def _detect_proxy(self):
         '''Return True if it appears we can connect to a SOCKS proxy,
